@@ -91,7 +91,7 @@ def one_replicate(spec):
             rows = [r for f in files for r in f["rows"]]
         else:
             files = [{"rows": rows}]
-        case = {"files": files, "refeed_seed": spec.get("refeed_seed"), "pred_chunk": int(spec.get("pred_chunk", 700000)), "folds": spec["folds"], "workers": 1, "cap": spec.get("cap"), "keyw": 2, "fmt": "pin",
+        case = {"files": files, "refeed_seed": spec.get("refeed_seed"), "refeed_reverse": bool(spec.get("refeed_reverse")), "pred_chunk": int(spec.get("pred_chunk", 700000)), "folds": spec["folds"], "workers": 1, "cap": spec.get("cap"), "keyw": 2, "fmt": "pin",
                 "thr": [1, 20], "train_thr": [1, 20], "seed": spec["seed"], "est": spec["est"], "col": 1, "override": True,
                 "max_iter": 3, "direction": "f1" if spec["est"] in ("memo", "feat") else None, "leak": spec.get("leak", False)}
         if spec.get("leak"):
@@ -208,7 +208,7 @@ def run(ctx):
         extra.append({"seed": ctx.seed * 100000 + 700000 + r, "n": 1600, "pi0": 0.5, "sep": [2.0, 3.0][r % 2], "folds": 2 + r % 3,
                       "est": "memo", "nfiles": 2, "group": "memo+2files"})
         extra.append({"seed": ctx.seed * 100000 + 800000 + r, "n": 1500, "pi0": 0.5, "sep": [2.0, 3.0][r % 2], "folds": 2 + r % 3,
-                      "est": "memo", "refeed_seed": 1 + r, "group": "memo+reseed"})
+                      "est": "memo", "refeed_seed": 1 + r, "refeed_reverse": bool(r % 2), "group": "memo+reseed"})
         # held-out scoring in several prediction chunks (the default chunk holds 700000 rows)
         extra.append({"seed": ctx.seed * 100000 + 850000 + r, "n": 1500, "pi0": 0.5, "sep": [2.0, 3.0][r % 2], "folds": 2 + r % 3,
                       "est": "memo", "pred_chunk": [170, 333, 700][r % 3], "group": "memo+chunks"})
